@@ -1058,6 +1058,25 @@ def _require_reproducible_text(value) -> None:
         raise ValueError(f"The text of {type(value).__name__} objects is not the same in every process")
 
 
+def is_made_of_literals(node: ast.AST) -> bool:
+    """Determine if an expression contains no names other than those of called pure builtins.
+
+    If literal_value() cannot evaluate such an expression, like 1 / 0, int("a") or (1).real.x,
+    evaluating it raises, whatever the rest of the program does.
+    """
+    callees = {
+        child.func
+        for child in ast.walk(node)
+        if isinstance(child, ast.Call)
+        and isinstance(child.func, ast.Name)
+        and child.func.id in constants.PURE_BUILTIN_FUNCTIONS
+        and child.func not in _REBOUND_NAMES
+    }
+    return not any(
+        isinstance(child, ast.Name) and child not in callees for child in ast.walk(node)
+    )
+
+
 def literal_value(node: ast.AST) -> bool:
     """Find the value that an expression is known to always evaluate to.
 
